@@ -22,7 +22,7 @@ PROPS["C17"] = dict(
     phases=[dict(name="files", harness="c17.cpp", flavor="asan", mode="random", cases=dict(quick=6000, thorough=100000), args=dict(probes=1))],
     rule="case = (link type = index mod 7, producer in {PacketWriter, own encoder}, 0..1000 frames with unique timestamps, optional filter expression, file tail, random program of reader driver "
          "segments); distinct = distinct (link type, producer, filter, sequence of (frame class, size, parses)); non-trivial = every file is read to its end with a check after each delivered packet",
-    floors=dict(any={"writer:zero-length-packet": 1000, 
+    floors=dict(any={"writer:zero-length-packet": 1000, "offline:pdu-checks-on-never-serialized-packets": 2000, 
         "distinct": 4000, "frames": 150000, "checks:order": 100000, "checks:timestamp": 60000, "checks:structure": 40000, "checks:bytes-serialize": 25000, "checks:bytes-raw": 40000,
         "files:EN10MB": 700, "files:IEEE802_11": 700, "files:IEEE802_11_RADIO": 700, "files:NULL": 700, "files:LINUX_SLL": 700, "files:RAW": 700, "files:PPI": 700,
         "writer:files": 1000, "writer:records-verified": 40000, "writer:timestamps-exact": 20000, "writer:packets-parsed-from-truncated-frame": 1000,
